@@ -348,7 +348,7 @@ pub enum KeyCommand {
     },
     Expire {
         key: Vec<u8>,
-        seconds: u64,
+        seconds: i64,
     },
     PExpire {
         key: Vec<u8>,
@@ -1207,7 +1207,12 @@ impl UnifiedCommandExecutor {
             }
             
             KeyCommand::Expire { key, seconds } => {
-                let result = self.storage.expire(db, &key, Duration::from_secs(seconds))?;
+                // A time to live that is not positive deletes the key, as in the command handler
+                if seconds <= 0 {
+                    let deleted = self.storage.delete(db, &key)?;
+                    return Ok(RespFrame::Integer(if deleted { 1 } else { 0 }));
+                }
+                let result = self.storage.expire(db, &key, Duration::from_secs(seconds as u64))?;
                 Ok(RespFrame::Integer(if result { 1 } else { 0 }))
             }
             
@@ -2726,7 +2731,7 @@ impl CommandParser {
             return Err(FerrousError::Command(CommandError::WrongNumberOfArguments("EXPIRE".into())));
         }
         let key = Self::extract_bytes(&frames[1])?;
-        let seconds = Self::extract_string(&frames[2])?.parse::<u64>()
+        let seconds = Self::extract_string(&frames[2])?.parse::<i64>()
             .map_err(|_| FerrousError::Command(CommandError::InvalidIntegerValue))?;
         Ok(KeyCommand::Expire { key, seconds })
     }
